@@ -30,9 +30,9 @@ Proof. exact search_mate1_honest. Qed.
 Print Assumptions C12_honest.
 
 Theorem C12_finds : forall k tf passes fuel root sc best st' m,
-  small_root root -> In m (legals root) -> mates_now k tf root m ->
+  In m (legals root) -> mates_now k tf root m ->
   pass k tf (fuel + N.to_nat 0) root 0 None {| s_polls := 0; s_evals := 0 |} = PassDone sc best st' ->
   exists m', Search.search k tf (S passes) fuel root = (Some m', mate1 (b_turn root), 0, false) /\
              mg_is_empty (legals_gen (Apply.apply root m')) = true /\ Board.in_check (Apply.apply root m') = true.
-Proof. exact search_finds_mate1. Qed.
+Proof. exact search_finds_mate1_all. Qed.
 Print Assumptions C12_finds.
